@@ -29,6 +29,10 @@ func walkPaths(f Formula, visit func(Path)) {
 		for _, k := range x.Fs {
 			walkPaths(k, visit)
 		}
+	case PC:
+		for _, k := range x.Fs {
+			walkPaths(k, visit)
+		}
 	case Or:
 		for _, k := range x.Fs {
 			walkPaths(k, visit)
@@ -55,6 +59,10 @@ func walkAtoms(f Formula, visit func(Atom)) {
 	case Not:
 		walkAtoms(x.F, visit)
 	case And:
+		for _, k := range x.Fs {
+			walkAtoms(k, visit)
+		}
+	case PC:
 		for _, k := range x.Fs {
 			walkAtoms(k, visit)
 		}
@@ -232,6 +240,37 @@ func FamilyAtoms(thorough bool) []Program {
 			out = append(out, one("v", If{C: And{[]Formula{a}}, T: other}))
 			out = append(out, one("v", Or{[]Formula{Not{And{[]Formula{a}}}, other}}))
 			out = append(out, one("v", If{C: other, T: And{[]Formula{a}}, E: Not{And{[]Formula{a}}}}))
+		}
+	}
+	return out
+}
+
+// FamilyGrouped: several constraints in ONE propertyConstraints block - on one property (a range of
+// counts, two quantifiers, a quantifier next to nested, length and value ranges) and on several
+// properties - alone, negated and as an operand of or. This is how profiles are usually written;
+// the other families spell conjunctions with an explicit and.
+func FamilyGrouped(thorough bool) []Program {
+	in1 := And{[]Formula{mc(1)}}
+	groups := []PC{
+		{[]Formula{Quant{P(0), true, 1, in1}, Quant{P(0), false, 1, in1}}},
+		{[]Formula{Quant{P(0), false, 1, in1}, Quant{P(0), true, 1, in1}}},
+		{[]Formula{Quant{P(0), true, 1, in1}, Nested{P(0), And{[]Formula{mc(2)}}}}},
+		{[]Formula{Atom{Path: P(0), Kind: "minCount", N: 1}, Atom{Path: P(0), Kind: "maxCount", N: 1}}},
+		{[]Formula{Atom{Path: P(0), Kind: "minCount", N: 1}, Atom{Path: P(1), Kind: "minCount", N: 1}}},
+		{[]Formula{Atom{Path: P(0), Kind: "minCount", N: 1}, Atom{Path: P(0), Kind: "pattern", Pattern: "^a"}, Atom{Path: P(1), Kind: "maxCount", N: 0}}},
+		{[]Formula{Atom{Path: P(0), Kind: "minLength", N: 2}, Atom{Path: P(0), Kind: "maxLength", N: 2}}},
+		{[]Formula{Atom{Path: P(0), Kind: "minInclusive", N: 5}, Atom{Path: P(0), Kind: "maxExclusive", N: 6}}},
+		{[]Formula{Atom{Path: P(0), Kind: "in", Values: []ast.Value{str("a"), str("b")}}, Atom{Path: P(0), Kind: "maxCount", N: 1}, Nested{P(1), in1}}},
+		{[]Formula{Atom{Path: P(0), Kind: "minCount", N: 1}, Atom{Path: P(0), Kind: "lessThanProperty", Other: P(1)}}},
+	}
+	var out []Program
+	for _, g := range groups {
+		out = append(out, one("v", g))
+		out = append(out, one("v", Not{g}))
+		if thorough {
+			out = append(out, one("v", Or{[]Formula{g, mc(3)}}))
+			out = append(out, one("v", If{C: mc(3), T: g}))
+			out = append(out, one("v", Nested{P(9), g}))
 		}
 	}
 	return out
@@ -454,6 +493,13 @@ func Occurrences(p Path) int {
 func FamilyLevels() []Program {
 	levels := []string{"violation", "warning", "info", ""}
 	var out []Program
+	// a validation may be listed under several levels: it then reports at each of them
+	for _, multi := range []string{"violation+warning", "warning+info", "violation+warning+info", "info+violation"} {
+		out = append(out, Program{Name: "P", Validations: []Validation{
+			{Name: "va", Level: multi, Class: 0, F: And{[]Formula{mc(0)}}},
+			{Name: "vb", Level: "warning", Class: 0, F: And{[]Formula{Atom{Path: P(0), Kind: "maxCount", N: 0}}}},
+		}})
+	}
 	for a := 0; a < 4; a++ {
 		for b := 0; b < 4; b++ {
 			for c := -1; c < 4; c++ {
@@ -555,6 +601,13 @@ func FamilyLocations(thorough bool) []Program {
 		one("v", Quant{P(0), true, 1, And{[]Formula{mc(1)}}}),
 		one("v", Not{Nested{P(0), And{[]Formula{mc(1)}}}}),
 	}
+	// embedded Rego that points its own trace at another node ($traceNode), next to a declarative
+	// constraint in the same branch: the declarative trace stays about the focus node
+	redirect := Rego{Code: fmt.Sprintf("linked = nodes_array with data.nodes as object.get($node, %q, [])\nother = find with data.link as linked[_]\n$traceNode = other\n$result = false", PredIRI(0))}
+	out = append(out,
+		one("v", Or{[]Formula{redirect, And{[]Formula{mc(1)}}}}),
+		one("v", Or{[]Formula{And{[]Formula{mc(1)}}, redirect}}),
+	)
 	if thorough {
 		out = append(out,
 			one("v", Quant{P(0), false, 0, And{[]Formula{mc(1)}}}),
